@@ -32,6 +32,15 @@ TextToks == { <<116>>, <<32>>, <<60,33,91,67,68,65,84,65,91,99,93,93,62>>, <<60,
               <<60,33,68,79,67,84,89,80,69,32,100,62>>, <<38,108,116,59>>, <<60,47,97,62>>,
               <<195,160>>, <<194,160>>, <<208,160,32,195,133>> }       \* a-grave, NBSP, "Cyrillic-Er A-ring" (continuation bytes A0 / 85)
 
+\* Mode "nil": inside an element that carries a properly bound xsi:nil="true" (the deserializer treats its content as
+\* absent): what may nevertheless be there - text, CDATA, children (also nil ones), the end tag, more content after it
+NilOpen == <<60,97,32,120,109,108,110,115,58,120,115,105,61,34,104,116,116,112,58,47,47,119,119,119,46,119,51,46,111,114,103,47,50,48,48,49,47,
+             88,77,76,83,99,104,101,109,97,45,105,110,115,116,97,110,99,101,34,32,120,115,105,58,110,105,108,61,34,116,114,117,101,34,62>>
+            \* <a xmlns:xsi="http://www.w3.org/2001/XMLSchema-instance" xsi:nil="true">
+NilToks == { <<116>>, <<32>>, <<60,33,91,67,68,65,84,65,91,99,93,93,62>>, <<60,98,62>>, <<60,47,98,62>>, <<60,98,47,62>>, <<60,47,97,62>>,
+             <<60,98,32,120,115,105,58,110,105,108,61,34,116,114,117,101,34,62>>,        \* <b xsi:nil="true">
+             <<60,97,62>>, <<60,33,45,45,120,45,45,62>> }
+
 \* ---------------------------------------------------------------- rendering logical events
 EscText(s) == Esc(s, "partial")
 RenderAttrs(attrs, q, sp, rev) ==
@@ -42,10 +51,13 @@ RenderAttrs(attrs, q, sp, rev) ==
                      (IF sp THEN <<32, 10>> ELSE <<32>>) \o a[1] \o (IF sp THEN <<32, 61, 32>> ELSE <<61>>) \o <<q>>
                      \o Esc(a[2], "full") \o <<q>> \o R(i + 1) IN
     R(1)
+\* unknown children whose own children repeat their name (the skip must count nesting), with text and other names inside
+UnkDeepFirst == <<60,122,122,62, 60,122,122,62,117,60,47,122,122,62, 60,121,47,62, 116, 60,47,122,122,62>>          \* <zz><zz>u</zz><y/>t</zz>
+UnkDeepLast == <<60,122,122,32,113,61,34,49,34,62, 60,122,122,47,62, 60,122,122,62,60,122,122,47,62,60,47,122,122,62, 60,47,122,122,62>>   \* <zz q="1"><zz/><zz><zz/></zz></zz>
 \* style: how the same information is spelled
 BaseStyle == [cdata |-> FALSE, refs |-> FALSE, short |-> FALSE, q |-> 34, sp |-> FALSE, rev |-> FALSE,
               prolog |-> FALSE, trail |-> FALSE, noteAt |-> 0, noteKind |-> 0, splitAt |-> 0, split3At |-> 0, wsAt |-> 0,
-              unkAttr |-> FALSE, unkFirst |-> FALSE, unkLast |-> FALSE]
+              unkAttr |-> FALSE, unkFirst |-> FALSE, unkLast |-> FALSE, unkDeep |-> FALSE]
 Mod(a, b) == a % b
 DecDigits(b) == (IF b >= 100 THEN <<48 + b \div 100>> ELSE <<>>) \o (IF b >= 10 THEN <<48 + Mod(b \div 10, 10)>> ELSE <<>>) \o <<48 + Mod(b, 10)>>
 HexDigit(d) == IF d < 10 THEN 48 + d ELSE 87 + d
@@ -86,10 +98,12 @@ RenderFrom(L, j, st, depth) ==
                 empty == j < Len(L) /\ L[j + 1][1] = "End" /\ st.short /\ ~(isRootStart /\ st.unkFirst) IN
             IF empty THEN <<60>> \o e[2] \o RenderAttrs(attrs, st.q, st.sp, st.rev) \o <<47, 62>> \o RenderFrom(L, j + 2, st, depth)
             ELSE <<60>> \o e[2] \o RenderAttrs(attrs, st.q, st.sp, st.rev) \o <<62>>
-                 \o (IF isRootStart /\ st.unkFirst THEN <<60, 122, 122, 62, 117, 60, 47, 122, 122, 62>> ELSE <<>>)   \* <zz>u</zz>
+                 \o (IF isRootStart /\ st.unkFirst
+                     THEN (IF st.unkDeep THEN UnkDeepFirst ELSE <<60, 122, 122, 62, 117, 60, 47, 122, 122, 62>>) ELSE <<>>)   \* <zz>u</zz>
                  \o RenderFrom(L, j + 1, st, depth + 1)
        [] e[1] = "End" ->
-            (IF isRootEnd /\ st.unkLast THEN <<60, 122, 122, 32, 113, 61, 34, 49, 34, 47, 62>> ELSE <<>>)             \* <zz q="1"/>
+            (IF isRootEnd /\ st.unkLast
+             THEN (IF st.unkDeep THEN UnkDeepLast ELSE <<60, 122, 122, 32, 113, 61, 34, 49, 34, 47, 62>>) ELSE <<>>)            \* <zz q="1"/>
             \o <<60, 47>> \o e[2] \o (IF st.sp THEN <<32>> ELSE <<>>) \o <<62>> \o RenderFrom(L, j + 1, st, depth - 1)
        [] OTHER -> RenderText(e[2], st, j) \o RenderFrom(L, j + 1, st, depth))
 RenderDoc(L, st) ==
@@ -114,7 +128,10 @@ Rewrites(L, tyn) ==
     \cup {[BaseStyle EXCEPT !.splitAt = j, !.noteKind = k] : j \in TextSites(L), k \in {0, 1}}
     \cup {[BaseStyle EXCEPT !.split3At = j, !.noteKind = k] : j \in {x \in TextSites(L) : Len(L[x][2]) >= 3}, k \in {0, 1}}
     \cup {[BaseStyle EXCEPT !.wsAt = j] : j \in WsSites(L)}
-    \cup (IF UnkChildOk(tyn) /\ ElementOnly(L) /\ Len(L) > 2 THEN {[BaseStyle EXCEPT !.unkFirst = TRUE], [BaseStyle EXCEPT !.unkLast = TRUE]} ELSE {})
+    \cup (IF UnkChildOk(tyn) /\ ElementOnly(L) /\ Len(L) > 2
+          THEN {[BaseStyle EXCEPT !.unkFirst = TRUE], [BaseStyle EXCEPT !.unkLast = TRUE],
+                [BaseStyle EXCEPT !.unkFirst = TRUE, !.unkDeep = TRUE], [BaseStyle EXCEPT !.unkLast = TRUE, !.unkDeep = TRUE],
+                [BaseStyle EXCEPT !.unkFirst = TRUE, !.unkLast = TRUE, !.unkDeep = TRUE, !.short = TRUE]} ELSE {})
 \* a few compositions
 Combos(L, tyn) ==
     {[BaseStyle EXCEPT !.cdata = TRUE, !.short = TRUE, !.q = 39, !.rev = TRUE, !.prolog = TRUE, !.trail = TRUE],
@@ -163,11 +180,11 @@ Reassemble(L, order) == <<L[1]>> \o Flatten([i \in 1..Len(order) |-> SubSeq(L, o
 VARIABLES ty, v, doc, toks, phase
 dvars == <<ty, v, doc, toks, phase>>
 NoV == [z |-> 1]
-IsSoup == Mode \in {"soup", "textrun"}
-Init == /\ phase = 0 /\ doc = (IF Mode = "textrun" THEN <<60, 97, 62>> ELSE <<>>) /\ toks = 0 /\ v = NoV
+IsSoup == Mode \in {"soup", "textrun", "nil"}
+Init == /\ phase = 0 /\ doc = (IF Mode = "textrun" THEN <<60, 97, 62>> ELSE IF Mode = "nil" THEN NilOpen ELSE <<>>) /\ toks = 0 /\ v = NoV
         /\ ty \in (IF IsSoup THEN {"-"} ELSE Types)
 SoupNext == /\ IsSoup /\ toks < N
-            /\ \E t \in (IF Mode = "textrun" THEN TextToks ELSE Toks) : doc' = doc \o t
+            /\ \E t \in (IF Mode = "textrun" THEN TextToks ELSE IF Mode = "nil" THEN NilToks ELSE Toks) : doc' = doc \o t
             /\ toks' = toks + 1 /\ UNCHANGED <<ty, v, phase>>
 ValNext == /\ ~IsSoup /\ phase = 0
            /\ \E x \in ValuesOf(ty, StrRT, "rt") : v' = x
